@@ -395,6 +395,7 @@ type tinterp struct {
 	vars    map[types.Object]*tval
 	callV   map[*ast.CallExpr]*tval
 	callVN  map[*ast.CallExpr][]*tval // calls of inlined helpers with several results
+	exprs   map[types.Object]ast.Expr // the expression last assigned to a local on this path
 	frames  []*ast.CallExpr
 	callees []*ast.FuncDecl
 	binds   []map[types.Object]ast.Expr // parameter -> argument expr of inlined calls
@@ -618,7 +619,20 @@ func (it *tinterp) run(atoms []Atom, loopSlot string) {
 					// the constant may have been given a name first (`call := Call{…}`)
 					// … and is read in the scheme method's terms when built inside a helper
 					// (`Call{Name: name, Size: len(arguments)}` with the helper's parameters)
-					arg := it.deepSubst(it.subst(it.em.Defs.Resolve(it.subst(call.Args[0]))))
+					arg := it.subst(it.em.Defs.Resolve(it.subst(call.Args[0])))
+					// … or assigned on this path (`value = float32(node.Value)` … `emitPush(value)`)
+					for n := 0; n < 4; n++ {
+						id, ok := Unparen(arg).(*ast.Ident)
+						if !ok {
+							break
+						}
+						ex, ok := it.exprs[it.objOf(id)]
+						if !ok {
+							break
+						}
+						arg = it.subst(ex)
+					}
+					arg = it.deepSubst(arg)
 					o.ConstExpr = arg
 					if tv, ok := info.Types[arg]; ok {
 						o.ConstType = tv.Type
@@ -724,6 +738,14 @@ func (it *tinterp) run(atoms []Atom, loopSlot string) {
 					}
 					obj := it.objOf(id)
 					r := Unparen(as.Rhs[i])
+					if as.Tok == token.ASSIGN || as.Tok == token.DEFINE {
+						if it.exprs == nil {
+							it.exprs = map[types.Object]ast.Expr{}
+						}
+						it.exprs[obj] = r
+					} else {
+						delete(it.exprs, obj)
+					}
 					// cond := len(c.bytecode)
 					if c, ok := r.(*ast.CallExpr); ok {
 						if fid, ok := c.Fun.(*ast.Ident); ok && fid.Name == "len" && len(c.Args) == 1 && it.isBytecode(c.Args[0]) {
@@ -741,7 +763,22 @@ func (it *tinterp) run(atoms []Atom, loopSlot string) {
 				}
 			}
 		case "decl":
-			// var loopBreak int : nothing to do
+			// var loopBreak int : nothing to do; var value interface{} = node.Value : the
+			// expression the variable holds on this path
+			if ds, ok := a.Node.(*ast.DeclStmt); ok {
+				if gd, ok := ds.Decl.(*ast.GenDecl); ok {
+					for _, sp := range gd.Specs {
+						if vs, ok := sp.(*ast.ValueSpec); ok && len(vs.Values) == len(vs.Names) {
+							for i, nm := range vs.Names {
+								if it.exprs == nil {
+									it.exprs = map[types.Object]ast.Expr{}
+								}
+								it.exprs[info.Defs[nm]] = Unparen(vs.Values[i])
+							}
+						}
+					}
+				}
+			}
 		case "loop":
 			rs, ok := a.Loop.(*ast.RangeStmt)
 			if !ok {
